@@ -489,8 +489,25 @@ def panic_from_stderr(text):
 
 _DISK_DOCS = {}
 
+FULL_CAPS = {"textDocument": {"publishDiagnostics": {"relatedInformation": True},
+                              "documentSymbol": {"hierarchicalDocumentSymbolSupport": True},
+                              "completion": {"completionItem": {"snippetSupport": True}}},
+             "workspace": {"didChangeWatchedFiles": {"dynamicRegistration": True}}}
 
-def lsp_case(binpath, case, wsroot, libs_std, rng_seed, max_cursors, counters, state):
+# every command line / setting variant of the server; each LSP session runs under one of them (rotating with the seed)
+LSP_VARIANTS = [
+    {"name": "default"},
+    {"name": "no-lint", "args": ["--no-lint"]},
+    {"name": "not-silent+full-caps+reload", "silent": False, "caps": FULL_CAPS, "reload": True},
+    {"name": "no-lint+full-caps+reload", "args": ["--no-lint"], "caps": FULL_CAPS, "reload": True},
+    {"name": "no-config-file", "toml": False},
+    {"name": "no-config-file+nonProjectFiles=ignore", "toml": False, "init": {"nonProjectFiles": "ignore"}},
+    {"name": "nonProjectFiles=analyze+no-caps", "init": {"nonProjectFiles": "analyze"}, "caps": {}},
+    {"name": "nonProjectFiles=bogus+no-lint+not-silent", "init": {"nonProjectFiles": "bogus", "x": 1}, "args": ["--no-lint"], "silent": False},
+]
+
+
+def lsp_case(binpath, case, wsroot, libs_std, rng_seed, max_cursors, counters, state, variant=None):
     """Replays one case through the server. Raises LspProblem with the failing (step, request, cursor)."""
     if os.path.isdir(wsroot):
         shutil.rmtree(wsroot)
@@ -502,16 +519,21 @@ def lsp_case(binpath, case, wsroot, libs_std, rng_seed, max_cursors, counters, s
         with open(p, "w", encoding="latin-1", errors="replace", newline="") as f:
             f.write(text)
         docs[name] = Doc(text)
-    with open(os.path.join(wsroot, "vhdl_ls.toml"), "w") as f:
-        f.write("[libraries]\n")
-        for lib, files in case["libs"]:
-            f.write("%s.files = [%s]\n" % (lib, ", ".join("'%s'" % x for x in files)))
+    variant = variant or LSP_VARIANTS[0]
+    state["variant"] = variant["name"]
+    has_toml = variant.get("toml", True)
+    if has_toml:
+        with open(os.path.join(wsroot, "vhdl_ls.toml"), "w") as f:
+            f.write("[libraries]\n")
+            for lib, files in case["libs"]:
+                f.write("%s.files = [%s]\n" % (lib, ", ".join("'%s'" % x for x in files)))
     # own / none: an empty library configuration (the project maps library std itself, or has none)
     libs = lsp.VHDL_LIBRARIES if case["std"] == "full" else (libs_std if case["std"] == "std" else os.path.join(libs_std, "none"))
     env = dict(os.environ)
     env["RAYON_NUM_THREADS"] = "2"
     env["RUST_BACKTRACE"] = "0"
-    ls = lsp.LS(binpath, wsroot, libraries=libs, env=env)
+    ls = lsp.LS(binpath if variant.get("silent", True) else binpath.replace("vhdl_ls_limited.sh", "vhdl_ls_limited_loud.sh"),
+                wsroot, libraries=libs, extra_args=variant.get("args", []), env=env)
     state.update({"step": 0, "req": "initialize", "cursor": None})
     import random
     rnd = random.Random(rng_seed)
@@ -593,6 +615,25 @@ def lsp_case(binpath, case, wsroot, libs_std, rng_seed, max_cursors, counters, s
             line += dl
             ch = ch + dc_ if dl == 0 else dc_
             check_loc(what, own_uri, {"start": {"line": line, "character": ch}, "end": {"line": line, "character": ch + ln}})
+            # the token must cover one lexical element of the CURRENT text: no blank inside, whole words only
+            lines_ = dc.lines()
+            u16 = lines_[line].encode("utf-16-le") if line < len(lines_) else b""
+            tok = u16[2 * ch:2 * (ch + ln)].decode("utf-16-le", "replace")
+            before = u16[2 * (ch - 1):2 * ch].decode("utf-16-le", "replace") if ch > 0 else ""
+            after = u16[2 * (ch + ln):2 * (ch + ln + 1)].decode("utf-16-le", "replace")
+            word = lambda c_: c_ != "" and (c_.isalnum() or c_ == "_")
+            bad = None
+            if ln == 0 or tok == "":
+                bad = "is empty"
+            elif tok[0] not in "\\'\"" and any(c_.isspace() for c_ in tok):
+                bad = "covers white space"
+            elif word(tok[0]) and word(before) and ord(before) < 128 and ord(tok[0]) < 128:
+                bad = "starts inside a word"
+            elif word(tok[-1]) and word(after) and ord(after) < 128 and ord(tok[-1]) < 128:
+                bad = "ends inside a word"
+            if bad:
+                raise LspProblem("location", what, "%s: token %d:%d+%d %s of the current text of %s (text %r; stale tokens?)" % (
+                    what, line, ch, ln, bad, path_of(own_uri), tok[:40]))
 
     pool = {}            # entity id (completion item data) -> item, collected over the whole session
     old_positions = []   # (file name, line, character) of symbols reported at earlier states
@@ -642,12 +683,15 @@ def lsp_case(binpath, case, wsroot, libs_std, rng_seed, max_cursors, counters, s
                 old_positions.append((name, rg["start"]["line"], rg["start"]["character"]))
             remember_symbols(name, sy.get("children"))
 
-    def queries(name, step):
+    def queries(name, step, focus=None, light=False):
         dc = docs[name]
         u = lsp.uri(os.path.join(wsroot, name))
         td = {"uri": u}
         bs = tokens_boundaries(dc.text)
         cur = rnd.sample(bs, min(len(bs), max_cursors)) if bs else []
+        if focus is not None:
+            # every token boundary of the edited line (completion right after `obj.`)
+            cur = [b for b in bs if b[0] == focus] + cur[:2]
         nl = len(dc.lines())
         cur += [(nl + 3, 1), (0, 2 ** 31 - 1), (2 ** 31 - 1, 0), (4294967295, 4294967295)]
         for (l, c) in cur:
@@ -680,6 +724,8 @@ def lsp_case(binpath, case, wsroot, libs_std, rng_seed, max_cursors, counters, s
                 dv = it.get("data")
                 if isinstance(dv, int) and len(pool) < 20000:
                     pool.setdefault(dv, it)
+        if light:
+            return
         state["cursor"] = [name, 0, 0]
         ds = call("textDocument/documentSymbol", {"textDocument": td})
         symbols("textDocument/documentSymbol", ds, u)
@@ -697,7 +743,7 @@ def lsp_case(binpath, case, wsroot, libs_std, rng_seed, max_cursors, counters, s
                       {"textDocument": td, "range": {"start": {"line": 0, "character": 0}, "end": {"line": max(1, nl // 2), "character": 0}}}), dc, u)
 
     try:
-        _resp, others = ls.initialize(timeout=180.0)
+        _resp, others = ls.initialize(caps=variant.get("caps"), init_options=variant.get("init"), timeout=180.0)
         check_diags(others)
         ver = 1
         names = [n for n, _ in case["files"]]
@@ -726,9 +772,15 @@ def lsp_case(binpath, case, wsroot, libs_std, rng_seed, max_cursors, counters, s
             counters["states"] += 1
             # the batch families (70-700 whole-document changes): every state is analysed and its diagnostics checked,
             # the queries run at every 8th state
+            if variant.get("reload") and has_toml and k == 1:
+                # configuration reload in the middle of the session
+                state["req"] = "workspace/didChangeWatchedFiles"
+                ls.notify("workspace/didChangeWatchedFiles", {"changes": [{"uri": lsp.uri(os.path.join(wsroot, "vhdl_ls.toml")), "type": 2}]})
+                check_diags(ls.sync(timeout=180.0))
             if not case["family"].endswith("-batch") or k % 8 == 0:
                 stale(n)
-                queries(n, k + 1)
+                queries(n, k + 1, focus=(e["range"][0] if case["family"] in ("cycles", "corpus") and e["range"] else None),
+                        light=(case["family"] == "cycles" and k % 8 != 0))
         ls.shutdown()
     except lsp.ServerDied as ex:
         try:
@@ -769,6 +821,10 @@ def lsp_stage(res, fnd, cases, d, max_cursors):
     with open(wrapper, "w") as f:
         f.write("#!/bin/sh\nulimit -v 8000000\nexec %s \"$@\"\n" % binpath)
     os.chmod(wrapper, 0o755)
+    loud = os.path.join(d, "vhdl_ls_limited_loud.sh")       # the client library always passes --silent first: drop it
+    with open(loud, "w") as f:
+        f.write("#!/bin/sh\nulimit -v 8000000\nshift\nexec %s \"$@\"\n" % binpath)
+    os.chmod(loud, 0o755)
     binpath = wrapper
     libs_std = os.path.join(d, "libs_std")
     os.makedirs(libs_std, exist_ok=True)
@@ -787,12 +843,18 @@ def lsp_stage(res, fnd, cases, d, max_cursors):
                 if not todo:
                     return
                 i, case = todo.pop(0)
-            cnt = {k: 0 for k in counters}
+            cnt = {k: 0 for k in counters if k != "sessions_per_variant"}
             problem = None
             st = {}
             try:
+                variant = LSP_VARIANTS[(i + seed()) % len(LSP_VARIANTS)]
+                if case.get("variant"):
+                    variant = [v_ for v_ in LSP_VARIANTS if v_["name"] == case["variant"]][0]
                 lsp_case(binpath, case, os.path.join(d, "lsp_ws%d" % i), libs_std, seed() * 1000 + i,
-                         (3 if max_cursors <= 10 else 8) if case["family"].endswith("-batch") else max_cursors, cnt, st)
+                         (3 if max_cursors <= 10 else 8) if case["family"].endswith("-batch") else max_cursors, cnt, st, variant)
+                with lock:
+                    vc = counters.setdefault("sessions_per_variant", {})
+                    vc[variant["name"]] = vc.get(variant["name"], 0) + 1
             except LspProblem as ex:
                 problem = ex
             except Exception as ex:          # a bug of this driver must not look like a pass
@@ -810,7 +872,8 @@ def lsp_stage(res, fnd, cases, d, max_cursors):
                     if problem.cls == "driver":
                         res.violation("LSP driver error: " + problem.detail, {"kind": "harness", "case": cj}, no_failing_input=True)
                     else:
-                        fnd.report("through vhdl_ls: " + describe(v), v, {"via": "lsp", "request": st.get("req")})
+                        cj["variant"] = st.get("variant")
+                        fnd.report("through vhdl_ls (%s): " % st.get("variant") + describe(v), v, {"via": "lsp", "request": st.get("req"), "variant": st.get("variant")})
 
     ths = [threading.Thread(target=worker) for _ in range(min(6, max(1, len(cases))))]
     for t in ths:
@@ -869,6 +932,17 @@ def main(tier, replay=None):
                 iso_fnd.append(f2)
                 run_harness(res, f2, hbin, ["cases", pth, os.path.join(d, "iso%d.out" % k), os.path.join(d, "work_iso"), "1", "25"],
                             os.path.join(d, "iso%d.out" % k), "corpus/isolated " + c["id"], 300, rayon=2, regen=lambda i: by_id.get(i))
+            # cyclic type declarations (cycles through access / alias / subtype / record / array / protected) x the queries
+            # that walk types: a regression there is a stack overflow, so the family has a process of its own
+            cyc = os.path.join(d, "cycles.json")
+            run([hbin, "famcases", "cycles", str(seed()), cyc], timeout=120)
+            if os.path.exists(cyc):
+                cyc_cases = {c["id"]: c for c in json.load(open(cyc))}
+                f2 = Findings(res)
+                iso_fnd.append(f2)
+                s_, _a, _r = run_harness(res, f2, hbin, ["cases", cyc, os.path.join(d, "cycles.out"), os.path.join(d, "work_cyc"), "8", "40"],
+                                         os.path.join(d, "cycles.out"), "type cycles", 600, rayon=2, regen=lambda i: cyc_cases.get(i))
+                summaries["cycles"] = s_
         iso_thread = threading.Thread(target=run_isolated)
         iso_thread.start()
         if corpus_cases:
@@ -912,9 +986,17 @@ def main(tier, replay=None):
             for fid, h in f2.hits.items():
                 h0 = fnd.hits.setdefault(fid, {"entry": h["entry"], "n": 0, "example": h["example"]})
                 h0["n"] += h["n"]
+        cyc = os.path.join(d, "cycles.json")
+        if os.path.exists(cyc):
+            cc = json.load(open(cyc))
+            pick = [c for c in cc if "-shared" not in c["id"] and "-all-" not in c["id"]]
+            npick = 8 if tier == "thorough" else 1
+            lsp_cases += pick[seed() % max(1, len(pick))::max(1, len(pick) // npick)][:npick]
+            lsp_cases += [c for c in cc if "access-via-alias" in c["id"] and "-shared" not in c["id"]][:1]
+            lsp_cases += [c for c in cc if "-all-" in c["id"]][:1]
         for c in corpus_cases:
             if c["id"] in ("F28-typed-into-standard", "F27-std_logic_1164-is-entity", "F5-lexer-hang", "F4-deadlock", "F3-stale-lint",
-                           "dup-all-units-duplicated", "F55-signed-bitstring-len0"):
+                           "dup-all-units-duplicated", "F55-signed-bitstring-len0", "F59-access-to-itself-completion"):
                 lsp_cases.append(c)
 
     samples = arena_correspondence(res, mbin, arenas, d)
@@ -975,7 +1057,15 @@ def main(tier, replay=None):
         "site a seed-rotated sample (thorough: every 2nd). Family dups: a file whose units all (or partly) duplicate another file of "
         "the library, shifted / shrunk / emptied / restored on both sides + random edits. Every state also probes ids at the arena "
         "sizes (entity_id_from_raw + format_entity = completionItem/resolve of a stale item); the LSP sessions keep old completion "
-        "items and symbols and resolve / query them after later edits. Edits are applied through Source::change (7/8 ranged, 1/8 whole document) + update_source + analyse. "
+        "items and symbols and resolve / query them after later edits. Family cycles (own process): cyclic type declarations "
+        "through every type-forming construct (access to itself, via alias, alias of alias, subtype, record / array element, mutually "
+        "recursive access types, protected types referring to themselves, file / range / constant of itself, ...) each with objects "
+        "(variable, shared variable, signal) and 40 uses that make analysis and queries walk the type (`obj.`, `obj.all.`, indexed, "
+        "selected, attribute names, allocators, completion after every token of the line), alone and all together. Every LSP "
+        "session runs under one of 8 server variants (--no-lint, with/without --silent, client capabilities full / default / "
+        "none, initializationOptions nonProjectFiles analyze / ignore / illegal, with / without vhdl_ls.toml, configuration reload "
+        "in mid-session), rotating with the seed; semantic tokens must lie in the document AND cover whole lexical elements of the "
+        "current text. Edits are applied through Source::change (7/8 ranged, 1/8 whole document) + update_source + analyse. "
         "After every analysis: diagnostics, then for the edited file (+1 other; all files at the first and last state) document "
         "symbols, semantic tokens, workspace symbols, unresolved references, and at <=48 cursors (2/3 within 2 lines of the edit, "
         "token starts/ends/middles by an independent scanner) + 10 out-of-range cursors (beyond line end, beyond last line, u32::MAX): "
